@@ -60,7 +60,16 @@ pub fn load_corpus() -> Vec<Item> {
             if let Ok(text) = std::fs::read_to_string(&f) {
                 let n = f.file_name().unwrap().to_string_lossy().to_string();
                 let syntax = if n.contains("luau") { LuaVersion::Luau } else { LuaVersion::Lua51 };
-                v.push(Item { rel: format!("catalogue/{}", n), syntax, text });
+                if n.ends_with(".lines") {
+                    // one program per line
+                    for (i, line) in text.lines().enumerate() {
+                        if !line.trim().is_empty() {
+                            v.push(Item { rel: format!("catalogue/{}#{}", n, i + 1), syntax, text: format!("{}\n", line) });
+                        }
+                    }
+                } else {
+                    v.push(Item { rel: format!("catalogue/{}", n), syntax, text });
+                }
             }
         }
     }
